@@ -17,6 +17,8 @@ import Mahotas.Proofs.C08TiesHitmiss
 import Mahotas.Proofs.C08Fast
 import Mahotas.Proofs.C08Rank
 import Mahotas.Proofs.C08ViewsA
+import Mahotas.Proofs.C08ViewsB
+import Mahotas.Properties.C17
 import Mahotas.Properties.C01
 import Mahotas.Properties.C04
 import Mahotas.Properties.C06
@@ -1127,4 +1129,123 @@ example : logical memJ vJ = [1, 1, 1, 0, 1, 1, 0, 0, 1, 0, 0, 0, 0, 0, 0, 0] ∧
       [false, false, false, false, false, true, false, false, false, false, false, false, false, false, false, false] ∧
     (majorityView 3 memJ vJn).toList.map (fun o => o.getD false) = List.replicate 16 false := by
   decide +kernel
+end Mahotas.C08.Example4
+
+
+/-! ## Round 4 — the in-place wavelet kernels on strided rows (`haar`, `ihaar`, `daubechies`, `idaubechies`, `inline=True`
+included): `Model/C08ViewsB.lean`
+
+`toIm m v` is the image a 2-D view presents as the total function the C17 model works on; `Inj2` says that distinct
+positions of the view have distinct addresses (any signs/sizes of strides otherwise); `Local T` that a row transform reads
+its row only inside `[0, N)` (proved for the four transforms of `Model/C17.lean`). -/
+
+/-- **one native wavelet call on a strided view = the owner's row pass.** For ANY row transform `T` that is local (all four
+of `_convolve.cpp` are: `haarRow_local`, `ihaarRow_local`, `waveletRow_local`, `iwaveletRow_local`), any memory and any 2-D
+view whose positions have distinct addresses (C, Fortran, sliced with steps, reversed, offset — `step = stride(1)` of any
+sign): after `kernel(array)` — per row `data = array.data(y)`, reads `data[p*step]`, buffer, `data[step*x] = buffer[x]` —
+the view presents `C17.rowsPass T N1` of what it presented before, and every address that is not an element of the view
+keeps its content (padding between strided elements, neighbouring data of a slice: purity of `inline=True`). -/
+theorem C08_wavelet_rows_view_eq_C17 {α : Type} (T : Nat → (Nat → α) → Nat → α) (hT : Local T) (m : Mem α) (v : View)
+    (N0 N1 : Nat) (s0 s1 : Int) (hsh : v.shape = [N0, N1]) (hst : v.strides = [s0, s1])
+    (hinj : Inj2 v.base s0 s1 N0 N1) :
+    (∀ y x, y < N0 → x < N1 → toIm (rowsInPlaceView T m v) v y x = C17.rowsPass T N1 (toIm m v) y x) ∧
+    (∀ a, (∀ y x : Nat, y < N0 → x < N1 → a ≠ v.base + (y : Int) * s0 + (x : Int) * s1) →
+      (rowsInPlaceView T m v).rd a = m.rd a) :=
+  rowsInPlaceView_spec T hT m v N0 N1 s0 s1 hsh hst hinj
+
+/-- **haar / ihaar / daubechies / idaubechies on a strided view = the C17 models** (`convolve.py`: the kernel on `f`, then on
+`f.T`; `idaubechies` the other way round; the `/= 2`, `*= 2` of `preserve_energy` are numpy operations outside the
+kernels): for every injective 2-D view of any strides the view presents afterwards exactly `C17.haar2 false`,
+`C17.ihaar2 false`, `C17.daubechies2 cs`, `C17.idaubechies2 cs` of what it presented before — the definitions
+`c17 kind=t` runs —, and nothing outside the view is written. -/
+theorem C08_wavelets_view_eq_C17 {α : Type} [Add α] [Sub α] [Mul α] [Div α] [Neg α] [NatCast α] [IntCast α]
+    (cs : List α) (m : Mem α) (v : View)
+    (N0 N1 : Nat) (s0 s1 : Int) (hsh : v.shape = [N0, N1]) (hst : v.strides = [s0, s1])
+    (hinj : Inj2 v.base s0 s1 N0 N1) :
+    (∀ y x, y < N0 → x < N1 →
+      toIm (rowsThenCols C17.haarRow m v) v y x = C17.haar2 false N0 N1 (toIm m v) y x ∧
+      toIm (rowsThenCols C17.ihaarRow m v) v y x = C17.ihaar2 false N0 N1 (toIm m v) y x ∧
+      toIm (rowsThenCols (C17.waveletRow cs) m v) v y x = C17.daubechies2 cs N0 N1 (toIm m v) y x ∧
+      toIm (colsThenRows (C17.iwaveletRow cs) m v) v y x = C17.idaubechies2 cs N0 N1 (toIm m v) y x) ∧
+    (∀ a, (∀ y x : Nat, y < N0 → x < N1 → a ≠ v.base + (y : Int) * s0 + (x : Int) * s1) →
+      (rowsThenCols C17.haarRow m v).rd a = m.rd a ∧ (rowsThenCols C17.ihaarRow m v).rd a = m.rd a ∧
+      (rowsThenCols (C17.waveletRow cs) m v).rd a = m.rd a ∧ (colsThenRows (C17.iwaveletRow cs) m v).rd a = m.rd a) := by
+  have h1 := rowsThenCols_spec C17.haarRow haarRow_local m v N0 N1 s0 s1 hsh hst hinj
+  have h2 := rowsThenCols_spec C17.ihaarRow ihaarRow_local m v N0 N1 s0 s1 hsh hst hinj
+  have h3 := rowsThenCols_spec (C17.waveletRow cs) (waveletRow_local cs) m v N0 N1 s0 s1 hsh hst hinj
+  have h4 := colsThenRows_spec (C17.iwaveletRow cs) (iwaveletRow_local cs) m v N0 N1 s0 s1 hsh hst hinj
+  exact ⟨fun y x hy hx => ⟨h1.1 y x hy hx, h2.1 y x hy hx, h3.1 y x hy hx, h4.1 y x hy hx⟩,
+         fun a ha => ⟨h1.2 a ha, h2.2 a ha, h3.2 a ha, h4.2 a ha⟩⟩
+
+/-- **the wavelet kernels are layout-free**: two (memory, view) pairs — each injective, any strides — that present the same
+image present the same image after `K(f); K(f.T)`, for every local row transform `K`. -/
+theorem C08_wavelets_layout_free {α : Type} (T : Nat → (Nat → α) → Nat → α) (hT : Local T)
+    (m₁ m₂ : Mem α) (v₁ v₂ : View) (N0 N1 : Nat) (s0 s1 t0 t1 : Int)
+    (hsh₁ : v₁.shape = [N0, N1]) (hst₁ : v₁.strides = [s0, s1]) (hinj₁ : Inj2 v₁.base s0 s1 N0 N1)
+    (hsh₂ : v₂.shape = [N0, N1]) (hst₂ : v₂.strides = [t0, t1]) (hinj₂ : Inj2 v₂.base t0 t1 N0 N1)
+    (hsame : ∀ y x, y < N0 → x < N1 → toIm m₁ v₁ y x = toIm m₂ v₂ y x)
+    (y x : Nat) (hy : y < N0) (hx : x < N1) :
+    toIm (rowsThenCols T m₁ v₁) v₁ y x = toIm (rowsThenCols T m₂ v₂) v₂ y x := by
+  rw [(rowsThenCols_spec T hT m₁ v₁ N0 N1 s0 s1 hsh₁ hst₁ hinj₁).1 y x hy hx,
+    (rowsThenCols_spec T hT m₂ v₂ N0 N1 t0 t1 hsh₂ hst₂ hinj₂).1 y x hy hx]
+  exact passes_congr T hT N0 N1 _ _ hsame y x hx
+
+/-- **`ihaar(haar(f, inline=True), inline=True)` restores `f` for any memory layout** (composition with `C17_ihaar_haar`): over
+any field with `2 ≠ 0`, for every injective 2-D view with even sides, running the two native `haar` passes and then the two
+native `ihaar` passes in place leaves exactly `f` at every element of the view (`preserve_energy` off in both
+calls; with it on, numpy divides and multiplies by 2 outside the kernels). -/
+theorem C08_ihaar_haar_view_correct {K : Type} [Field K] (h2 : (2 : K) ≠ 0) (m : Mem K) (v : View)
+    (N0 N1 : Nat) (s0 s1 : Int) (hsh : v.shape = [N0, N1]) (hst : v.strides = [s0, s1])
+    (hinj : Inj2 v.base s0 s1 N0 N1) (h0 : N0 % 2 = 0) (h1 : N1 % 2 = 0)
+    (y x : Nat) (hy : y < N0) (hx : x < N1) :
+    toIm (rowsThenCols C17.ihaarRow (rowsThenCols C17.haarRow m v) v) v y x = toIm m v y x := by
+  rw [(rowsThenCols_spec C17.ihaarRow ihaarRow_local _ v N0 N1 s0 s1 hsh hst hinj).1 y x hy hx]
+  rw [passes_congr C17.ihaarRow ihaarRow_local N0 N1 _ (C17.colsPass C17.haarRow N0 (C17.rowsPass C17.haarRow N1 (toIm m v)))
+    (fun y x hy hx => (rowsThenCols_spec C17.haarRow haarRow_local m v N0 N1 s0 s1 hsh hst hinj).1 y x hy hx) y x hx]
+  exact C17_ihaar_haar h2 false N0 N1 h0 h1 (toIm m v) y x hy hx
+
+/-- **the defect repaired by 63fe463, as a theorem**: the pinned `ihaar<T>` computed the start of the high-pass half as
+`data + step*N1/2` = `(step*N1)/2`. For a row of odd length 3 walked with step 2 (a column of a 3×2 C-array) it reads address
+`data + 3`, which is not an element of the row (those are `data + 0, 2, 4`): two memories that agree on the whole row give
+different results, i.e. the value depended on memory outside the logical content; the repaired row (`C17.ihaarRow` on
+`data[p*step]`) reads element 1 = address `data + 2`. -/
+theorem C08_ihaar_pinned_wrong :
+    let m₁ : Int → Int := fun a => if a = 3 then 2 else 0
+    let m₂ : Int → Int := fun _ => 0
+    (∀ p : Nat, p < 3 → m₁ (0 + (p : Int) * 2) = m₂ (0 + (p : Int) * 2)) ∧
+    ihaarRowPinned 3 2 0 m₁ 0 ≠ ihaarRowPinned 3 2 0 m₂ 0 ∧
+    (∀ k, C17.ihaarRow 3 (fun p => m₁ (0 + (p : Int) * 2)) k = C17.ihaarRow 3 (fun p => m₂ (0 + (p : Int) * 2)) k) := by
+  refine ⟨?_, by decide, ?_⟩
+  · intro p hp
+    have : p = 0 ∨ p = 1 ∨ p = 2 := by omega
+    rcases this with rfl | rfl | rfl <;> decide
+  · intro k
+    apply ihaarRow_local
+    intro p hp
+    have : p = 0 ∨ p = 1 ∨ p = 2 := by omega
+    rcases this with rfl | rfl | rfl <;> decide
+
+namespace Mahotas.C08.Example4
+/-- a 2×4 image stored reversed along both axes with gaps (element strides −10 and −2, base 16); `haar` in place -/
+def memW : Mem Int := ⟨fun a => [0, 0, 8, 0, 7, 0, 6, 0, 5, 0, 0, 0, 4, 0, 3, 0, 2, 0, 1, 0].getD a.toNat 0⟩
+def vW : View := { base := 18, shape := [2, 4], strides := [-10, -2] }
+
+theorem injW : Inj2 vW.base (-10) (-2) 2 4 := by
+  intro y y' x x' hy hy' hx hx' h
+  simp only [vW] at h
+  omega
+
+example : (List.range 2).map (fun y => (List.range 4).map (toIm memW vW y)) = [[1, 2, 3, 4], [5, 6, 7, 8]] ∧
+    (List.range 2).map (fun y => (List.range 4).map (toIm (rowsThenCols C17.haarRow memW vW) vW y)) =
+      [[14, 22, 2, 2], [8, 8, 0, 0]] ∧
+    (List.range 2).map (fun y => (List.range 4).map (C17.haar2 false 2 4 (toIm memW vW) y)) =
+      [[14, 22, 2, 2], [8, 8, 0, 0]] ∧
+    (List.range 20).filter (fun (k : Nat) => (rowsThenCols C17.haarRow memW vW).rd (k : Int) ≠ memW.rd (k : Int)) =
+      [2, 4, 6, 8, 12, 14, 16, 18] := by decide +kernel
+
+/-- the injectivity hypothesis is needed: with a zero column stride both columns are the same cell, the second store wins and
+the view does not present the row transform -/
+def vZ : View := { base := 0, shape := [1, 2], strides := [0, 0] }
+example : toIm (rowsInPlaceView C17.haarRow ⟨fun _ => (1 : Int)⟩ vZ) vZ 0 0 = 0 ∧
+    C17.rowsPass C17.haarRow 2 (toIm ⟨fun _ => (1 : Int)⟩ vZ) 0 0 = 2 := by decide +kernel
 end Mahotas.C08.Example4
